@@ -153,6 +153,7 @@ def run(tier: str, seed: int) -> int:
     from .. import rulelab
     pairs = rulelab.fixture_classes(tier, seed)
     pairs = [((c.prefix, c.patterns, c.alphabet, c.just_prefix, c.stats), type(st).__name__) for c, st in pairs]
+    pairs = list(dict.fromkeys(pairs))
     if tier == "quick":
         pairs = pairs[:320]
     ncampaign = len(traces)
